@@ -25,6 +25,7 @@ def main():
     ap.add_argument("--shard", default="0/1")
     ap.add_argument("--serve", action="store_true")
     ap.add_argument("--block", type=int)
+    ap.add_argument("--wall", type=float, help="with --digests: stop after this many seconds (whole prefix of each block kept)")
     a = ap.parse_args()
     seed = int(os.environ.get("VERIF_SEED", "0") or 0)
     from vsim import runner
@@ -39,7 +40,7 @@ def main():
             known = sorted(e["signature"] for e in runner.load_known(a.property)
                            if e["status"] == "known")
             sh = tuple(int(x) for x in a.shard.split("/"))
-            d = runner.compute_digests(m, a.tier, seed, a.digests, known, sh, a.block)
+            d = runner.compute_digests(m, a.tier, seed, a.digests, known, sh, a.block, wall=a.wall)
             print("DIGESTS " + json.dumps({str(k): v for k, v in d.items()}))
             return 0
         if a.show is not None:
